@@ -3,18 +3,19 @@
   The model runs with the lists regenerated from the source (`Gen/Auth.lean`), the concrete
   normalisations and the key-space machine as dispatch (database 0).
 
-  tables                         → preGate=<hexlist> guarded=<hexlist> allow=<name-hex>:<arm>|… default=<0|1> first=<0|1> names=<n>
+  tables                         → preGate=<hexlist> guarded=<hexlist> unknown=<hexlist> allow=<name-hex>:<arm>|… default=<0|1> first=<0|1> names=<n>
   names                          → `|`-joined hex of Gen.allCommandNames
   reset <password-hex|none>      → ok                         (empty dataset, no connections)
   accept <c>                     → state of c afterwards
   wake <c> | close <c> | drop <c> → state of c afterwards
   state <c>                      → connected|authenticated|blocked|closing|none
-  classify <name-hex>            → pregate|allowed|refused    (request of an unauthenticated connection, password set)
+  classify <name-hex>            → pregate|allowed|refused|unknown   (request of an unauthenticated connection, password set;
+                                   unknown = pre-gate special case under a condition the translator cannot interpret: no prediction)
   norm <name-hex>                → <normLoop-hex> <normFrame-hex>
   frame <c> <req>                → <code reply class> # <spec verdict> # <state of c afterwards> # <same|changed> # <replicas>
   batch <c> <req> ; <req> ; …    → <class> ; <class> ; … # <state of c afterwards (QUIT applied)> # <same|changed> # <replicas>
       req  := cmd <name-hex> <arg>… | badname | notarray        arg := <hex> | `~` (not a bulk string)
-      reply class := err-noauth | err | ok | pong | echo <hex|~> | leak | continue | d <canonical reply of dispatch>
+      reply class := err-noauth | err | ok | pong | echo <hex|~> | leak | continue | d <canonical reply of dispatch> | unknown
       spec verdict (the property's own oracle, from its own record of who presented the exact password):
          authenticated (anything may happen) | must-refuse | harmless (PING, QUIT) | auth-ok | auth-fail
       same|changed: everything except the caller's own connection state (dataset, subscriptions, replicas,
@@ -109,15 +110,24 @@ def specVerdict (st : St) (c : Nat) (req : Req) : String × Bool :=
 /-- everything except the caller's own connection state -/
 def others (s : Srv) (c : Nat) : Srv := { s with conns := removeConn s.conns c }
 
+/-- names whose pre-gate special case depends on a condition the translator could not interpret: the model
+    makes no prediction for them (class `unknown`; the state is left as if the request had been refused) -/
+def unknownNames : List Bytes := Gen.preGateUnknownGuard.map fun p => nameBytes p.1
+
+def isUnknown : Req → Bool
+  | .cmd name _ => unknownNames.contains (Code.normLoop name)
+  | _ => false
+
 def doFrame (st : St) (c : Nat) (req : Req) : St × String × String :=
   let (verdict, nowAuthed) := specVerdict st c req
+  if isUnknown req then (st, "unknown", verdict) else
   let (s', r) := Code.processConnectionFrame tree disp st.s c req
   ({ s := s', specAuthed := if nowAuthed then c :: st.specAuthed else st.specAuthed }, showClass r, verdict)
 
 def step (st : St) (ws : List String) : St × String :=
   match ws with
   | ["tables"] =>
-    (st, s!"preGate={hexList tree.preGate} guarded={hexList (Gen.preGateGuarded.map nameBytes)} allow=" ++
+    (st, s!"preGate={hexList tree.preGate} guarded={hexList (Gen.preGateGuarded.map nameBytes)} unknown={hexList unknownNames} allow=" ++
       String.intercalate "|" (tree.allow.map fun p => toHex p.1 ++ ":" ++ showArm p.2) ++
       s!" default={if Gen.gateDefaultRefuses then 1 else 0} first={if Gen.gateIsFirst then 1 else 0} names={Gen.allCommandNames.length}")
   | ["names"] => (st, hexList (Gen.allCommandNames.map nameBytes))
@@ -127,7 +137,8 @@ def step (st : St) (ws : List String) : St × String :=
     | none => (st, "bad-op")
   | ["classify", n] =>
     match ofHex n with
-    | some n => (st, match classify tree n with | .pregate => "pregate" | .allowed => "allowed" | .refused => "refused")
+    | some n => (st, if unknownNames.contains (Code.normLoop n) then "unknown" else
+        match classify tree n with | .pregate => "pregate" | .allowed => "allowed" | .refused => "refused")
     | none => (st, "bad-op")
   | ["norm", n] =>
     match ofHex n with
